@@ -178,6 +178,7 @@ def run(ctx, rep):
         else:
             rep.undecided('D1.fixed', fn, fn.node.name, 'how conditioned columns are filled was not recognised', construct='conditioned branch')
     gauss.report_order(ctx, rep, 'D2.align', ['_get_normal_samples', '_get_conditional_distribution'], floor=8)
+    gauss.report_marginal_index(ctx, rep, 'D2.align', ['_transform_to_normal', '_get_normal_samples', '_get_conditional_distribution', 'sample'])
     # D3
     cd = gauss.gm_method(ctx, '_get_conditional_distribution')
     ba = BlockAlg(ctx, cd.params[1])
